@@ -63,6 +63,8 @@ def match_place_documents(case):
 
 
 def run_native(case, profile='dev'):
+    if case.get('kind') == 'location_index':
+        case = dict(case, kind='job_rules')
     if case.get('kind') == 'job_tag':
         case = job_tag_documents(case)
     if case.get('kind') == 'match_place':
@@ -687,6 +689,17 @@ def evaluate(case, native):
             return True, (f'variation criterion answered {native["fired"]} at generation {g} (window of {sample}); the window after the update is {post}, '
                           f'coefficients of variation {[round(c, 3) for c in cvs]}, threshold {case["threshold"]}: expected {want}')
         return False, 'the criterion fires exactly when the window is full and every coefficient of variation is within the threshold'
+    if kind == 'location_index':
+        got = 'E1504' in native['codes']
+        inside = max(case['indices']) < case['size']
+        amount = len(set(case['indices']))
+        if not got and not inside:
+            return True, f'location indices {case["indices"]} pass E1504 with a {case["size"]}x{case["size"]} matrix although {max(case["indices"])} is outside the matrix (codes: {native["codes"]})'
+        want = max(case['indices']) + 1 != case['size']
+        if got != want:
+            return True, (f'E1504 is {"reported" if got else "not reported"} for location indices {case["indices"]} and a {case["size"]}x{case["size"]} matrix; the documented check '
+                          f'(max location index + 1 == matrix size) is {"broken" if want else "satisfied"}')
+        return False, 'E1504 agrees with the documented rule'
     if kind == 'statistic_sum':
         for k_ in ('cost', 'distance', 'duration', 'driving', 'serving', 'waiting', 'break_time', 'commuting', 'parking'):
             want = case['a'][k_] + case['b'][k_]
